@@ -258,6 +258,37 @@ func checkOne(c *runlib.Ctx, w witness, id, name string, u *url.URL, m mask) (re
 
 	res.str = r.String()
 
+	// The same URL object, changed in place by its owner and redacted again:
+	// every other component of the new result equals the (new) input's, and
+	// results of different calls are independent objects.
+	if before.User != nil {
+		host, path, query, frag := u.Host, u.Path, u.RawQuery, u.Fragment
+		u.Host, u.Path, u.RawQuery, u.Fragment = "changed.example:8443", "/changed", "changed=1", "changed"
+		var r2 *url.URL
+		if pv, _ := runlib.Try(func() { r2 = urlutil.RedactUserinfo(u) }); pv != nil {
+			c.Violation(key+"/again/panic", desc+" after the URL was changed in place "+panicText(pv), w)
+		} else if r2 != nil {
+			rest, want := *r2, *u
+			rest.User, want.User = nil, nil
+			if !reflect.DeepEqual(rest, want) {
+				c.Violation(key+"/again/components", fmt.Sprintf(
+					"%s, then the same URL object changed in place (host, path, query, fragment) and redacted again: the second result has %+v, the input %+v",
+					desc, rest, want), w)
+			}
+
+			if r2 == r {
+				c.Violation(key+"/again/shared-result", desc+": two calls returned the same result object", w)
+			} else {
+				r2.Host = "scribbled.example"
+				if r.String() != res.str {
+					c.Violation(key+"/again/shared-result", desc+": changing the result of a later call changed the result of an earlier one", w)
+				}
+			}
+		}
+
+		u.Host, u.Path, u.RawQuery, u.Fragment = host, path, query, frag
+	}
+
 	// The redacted form, built from the statement: the input with the mask as
 	// its userinfo.
 	wantText := beforeStr
